@@ -1023,3 +1023,308 @@ inline void prop_c15(const vf::Case& c, Ctx& ctx)
     ctx.nontrivial = hostile_seen;
 }
 }  // namespace api
+
+// ------------------------------------------------------------------------------------------------------ C14
+// A failed mutating call leaves no partial update: one mutator x every fault position.
+namespace api
+{
+inline const std::vector<std::string>& mutators()
+{
+    static std::vector<std::string> v = [] {
+        std::vector<std::string> m = {"create_track", "update", "remove_track"};
+        for (auto& s : setters())
+            m.push_back(std::string("set_") + s.name);
+        for (const char* n : {"create_root_crate", "create_sub_crate", "create_root_crate_after", "create_sub_crate_after", "set_name", "set_parent",
+                              "add_track(track)", "add_track(id)", "crate::remove_track", "clear_tracks", "remove_crate"})
+            m.push_back(n);
+        return m;
+    }();
+    return v;
+}
+
+// deterministic prior state: 2 tracks with performance data, crates A > C, B; memberships; then `extra` generated operations
+inline std::unique_ptr<World> build_c14_state(e::engine_schema schema, const vf::Case& c, size_t first_rec, size_t n_extra)
+{
+    auto w = std::make_unique<World>(schema, e::create_temporary_database(schema));
+    Ctx scratch;
+    for (int i = 0; i < 2; ++i)
+    {
+        dj::track_snapshot s;
+        s.relative_path = "state/track" + std::to_string(i) + ".mp3";
+        s.title = "T" + std::to_string(i);
+        s.artist = "Artist";
+        s.bpm = 120.0 + i;
+        s.sample_rate = 44100;
+        s.sample_count = 44100ull * 8 * (i + 1);
+        s.duration = std::chrono::milliseconds{8000 * (i + 1)};
+        s.key = dj::musical_key::a_minor;
+        s.rating = 40;
+        s.average_loudness = 0.5;
+        s.main_cue = 1000.0;
+        s.beatgrid = {{-4, -100.0}, {40, 882000.0}};
+        s.hot_cues = {dj::hot_cue{"cue", 5000.0, e::standard_pad_colors::pad_1}, std::nullopt, dj::hot_cue{"two", 9000.5, e::standard_pad_colors::pad_3}};
+        s.loops = {std::nullopt, dj::loop{"loop", 1000.0, 2000.0, e::standard_pad_colors::pad_2}};
+        s.waveform.resize(e::calculate_high_resolution_waveform_extents(*s.sample_count, *s.sample_rate).size);
+        for (size_t k = 0; k < s.waveform.size(); ++k)
+            s.waveform[k].low.value = static_cast<uint8_t>(k);
+        dj::track t = w->db.create_track(s);
+        w->issued_track_ids.insert(t.id());
+        w->tracks.push_back(TrackM{t, t.id(), true});
+    }
+    auto a = w->db.create_root_crate("A");
+    adopt_new_crate(*w, scratch, a, "A", 0, 0, "state");
+    auto b = w->db.create_root_crate("B");
+    adopt_new_crate(*w, scratch, b, "B", 0, 0, "state");
+    auto cc = a.create_sub_crate("C");
+    adopt_new_crate(*w, scratch, cc, "C", a.id(), 0, "state");
+    auto add = [&](dj::crate& cr, size_t ti) {
+        cr.add_track(w->tracks[ti].handle);
+        w->members.insert({cr.id(), w->tracks[ti].id});
+        w->entries[cr.id()].push_back(w->tracks[ti].id);
+    };
+    add(a, 0);
+    add(cc, 0);
+    add(cc, 1);
+    for (size_t i = 0; i < n_extra && first_rec + i < c.size(); ++i)
+    {
+        S s(c[first_rec + i]);
+        try
+        {
+            history_step(*w, s, scratch);
+        }
+        catch (const vf::Fail&)
+        {
+            // value-level judgement of the prior history is C07/C08's job, not this property's
+        }
+    }
+    return w;
+}
+
+// performs ONE public mutating call; arguments are a pure function of (state, record). Returns a description.
+inline std::string do_mutation(World& w, size_t m, S s, bool& threw)
+{
+    threw = false;
+    Ctx scratch;
+    auto lc = w.live_crates();
+    auto lt = w.live_tracks();
+    const std::string& name = mutators()[m];
+    std::string desc = name;
+    auto guard = [&](auto&& fn) {
+        try
+        {
+            fn();
+        }
+        catch (const std::exception& ex)
+        {
+            threw = true;
+            desc += " -> threw " + std::string(ex.what()).substr(0, 100);
+        }
+    };
+    if (lt.empty() || lc.empty())
+        return desc + " (no entities)";
+    TrackM& t = w.tracks[lt[s.below(lt.size())]];
+    CrateM& c = w.crates[lc[s.below(lc.size())]];
+    if (name == "create_track" || name == "update")
+    {
+        dj::track_snapshot snap;
+        snap.relative_path = "fault/new-" + std::to_string(s.below(1000)) + ".flac";
+        snap.title = "New";
+        snap.genre = "G";
+        snap.bpm = 99.5;
+        snap.sample_rate = 48000;
+        snap.sample_count = 48000ull * 30;
+        snap.year = 1999;
+        snap.rating = 80;
+        snap.key = dj::musical_key::c_major;
+        snap.last_played_at = std::chrono::system_clock::time_point{std::chrono::seconds{1600000000}};
+        snap.hot_cues = {std::nullopt, dj::hot_cue{"x", 10.0, e::standard_pad_colors::pad_4}};
+        snap.loops = {dj::loop{"l", 5.0, 50.0, e::standard_pad_colors::pad_5}};
+        snap.beatgrid = {{0, 0.0}, {64, 1440000.0}};
+        snap.waveform.resize(s.coin() ? 0 : 100);
+        if (name == "create_track")
+            guard([&] { (void)w.db.create_track(snap); });
+        else
+            guard([&] { t.handle.update(snap); });
+        return desc;
+    }
+    if (name == "remove_track")
+    {
+        desc += "(" + std::to_string(t.id) + ")";
+        guard([&] { w.db.remove_track(t.handle); });
+        return desc;
+    }
+    if (name.rfind("set_", 0) == 0 && name != "set_name" && name != "set_parent")
+    {
+        size_t k = m - 3;
+        TrackModel tm{t.handle, dj::track_snapshot{}, ""};
+        tm.given = t.handle.snapshot();
+        bool th = false;
+        desc = "t" + std::to_string(t.id) + ".set_" + apply_setter(k, s, scratch, w.schema, tm, th, 7000 + static_cast<int>(s.below(100)));
+        threw = th;
+        return desc;
+    }
+    std::string fresh = "F" + std::to_string(s.below(100000));
+    if (name == "create_root_crate")
+        guard([&] { (void)w.db.create_root_crate(fresh); });
+    else if (name == "create_sub_crate")
+        guard([&] { (void)c.handle.create_sub_crate(fresh); });
+    else if (name == "create_root_crate_after")
+    {
+        CrateM* root = nullptr;
+        for (auto i : lc)
+            if (w.crates[i].parent == 0)
+                root = &w.crates[i];
+        if (!root)
+            return desc + " (no root)";
+        guard([&] { (void)w.db.create_root_crate_after(fresh, root->handle); });
+    }
+    else if (name == "create_sub_crate_after")
+    {
+        CrateM* kid = nullptr;
+        for (auto i : lc)
+            if (w.crates[i].parent != 0)
+                kid = &w.crates[i];
+        if (!kid)
+            return desc + " (no child)";
+        CrateM* par = w.by_id(kid->parent);
+        guard([&] { (void)par->handle.create_sub_crate_after(fresh, kid->handle); });
+    }
+    else if (name == "set_name")
+    {
+        desc += "(" + std::to_string(c.id) + ")";
+        guard([&] { c.handle.set_name(fresh); });
+    }
+    else if (name == "set_parent")
+    {
+        // a legal target: none, or a crate that is neither c nor one of its descendants
+        auto st = w.subtree(c.id);
+        std::vector<CrateM*> ok;
+        for (auto i : lc)
+            if (w.crates[i].id != c.id && !st.count(w.crates[i].id) && w.crates[i].id != c.parent)
+                ok.push_back(&w.crates[i]);
+        CrateM* target = (ok.empty() || (c.parent != 0 && s.below(3) == 0)) ? nullptr : ok[s.below(ok.size())];
+        if (!target && c.parent == 0)
+            return desc + " (nothing to move)";
+        desc += "(" + std::to_string(c.id) + " -> " + (target ? std::to_string(target->id) : std::string("none")) + ")";
+        guard([&] { target ? c.handle.set_parent(target->handle) : c.handle.set_parent(std::nullopt); });
+    }
+    else if (name == "add_track(track)" || name == "add_track(id)")
+    {
+        // prefer a non-member so that something is written
+        for (auto i : lc)
+            for (auto j : lt)
+                if (!w.members.count({w.crates[i].id, w.tracks[j].id}))
+                {
+                    desc += "(" + std::to_string(w.crates[i].id) + "," + std::to_string(w.tracks[j].id) + ")";
+                    if (name == "add_track(id)")
+                        guard([&] { w.crates[i].handle.add_track(w.tracks[j].id); });
+                    else
+                        guard([&] { w.crates[i].handle.add_track(w.tracks[j].handle); });
+                    return desc;
+                }
+        guard([&] { c.handle.add_track(t.handle); });
+    }
+    else if (name == "crate::remove_track")
+    {
+        if (w.members.empty())
+            return desc + " (no members)";
+        auto it = w.members.begin();
+        std::advance(it, s.below(w.members.size()));
+        CrateM* cr = w.by_id(it->first);
+        TrackM* tr = nullptr;
+        for (auto& x : w.tracks)
+            if (x.live && x.id == it->second)
+                tr = &x;
+        if (!cr || !tr)
+            return desc + " (stale member)";
+        desc += "(" + std::to_string(cr->id) + "," + std::to_string(tr->id) + ")";
+        guard([&] { cr->handle.remove_track(tr->handle); });
+    }
+    else if (name == "clear_tracks")
+    {
+        CrateM* cr = &c;
+        for (auto& mm : w.members)
+            if (CrateM* x = w.by_id(mm.first))
+                cr = x;
+        desc += "(" + std::to_string(cr->id) + ")";
+        guard([&] { cr->handle.clear_tracks(); });
+    }
+    else if (name == "remove_crate")
+    {
+        CrateM* cr = &c;
+        for (auto i : lc)
+            if (!w.subtree(w.crates[i].id).empty() && s.coin())
+                cr = &w.crates[i];
+        desc += "(" + std::to_string(cr->id) + ")";
+        guard([&] { w.db.remove_crate(cr->handle); });
+    }
+    return desc;
+}
+
+inline void prop_c14(const vf::Case& c, Ctx& ctx)
+{
+    S h(c[0]);
+    auto schema = pick_schema(h, ctx);
+    size_t m = h.below(mutators().size());
+    size_t n_extra = h.below(5);
+    bool v2 = is_v2(schema);
+    std::string fam = v2 ? "2.x:" : "1.x:";
+    const std::string& mname = mutators()[m];
+    ctx.label(fam + mname);
+    if (ctx.exclude("c14:" + fam + mname))
+        return;
+    size_t op_rec = c.size() - 1;
+    auto& sh = vfshim::state();
+    vfshim::disarm();
+    // ---- dry run: does the operation succeed, and how many fault points does it have?
+    uint64_t W = 0;
+    std::string desc;
+    {
+        auto w = build_c14_state(schema, c, 1, std::min(n_extra, op_rec > 1 ? op_rec - 1 : 0));
+        bool threw = false;
+        vfshim::reset_counters();
+        desc = do_mutation(*w, m, S(c[op_rec]), threw);
+        W = sh.fault_points;
+        ctx.describe = "schema " + sname(schema) + " " + w->hist + " || " + desc + " [W=" + std::to_string(W) + "]";
+        ctx.key = ctx.describe;
+        if (threw || desc.find("(no") != std::string::npos || desc.find("(nothing") != std::string::npos || desc.find("(stale") != std::string::npos)
+        {
+            ctx.label("op-not-applicable");
+            return;
+        }
+    }
+    if (W == 0)
+    {
+        ctx.label("W=0");
+        return;
+    }
+    if (W >= 2)
+        ctx.label("W>=2");
+    ctx.nontrivial = W >= 2;
+    for (uint64_t k = 1; k <= W; ++k)
+    {
+        auto w = build_c14_state(schema, c, 1, std::min(n_extra, op_rec > 1 ? op_rec - 1 : 0));
+        std::string before = observe(w->db, w->v2);
+        bool threw = false;
+        vfshim::arm(k);
+        std::string d2 = do_mutation(*w, m, S(c[op_rec]), threw);
+        bool fired = sh.fired;
+        vfshim::disarm();
+        std::string where = std::string(v2 ? "2.x " : "1.x ") + mname + " leaves a partial update or an unusable library: " + ctx.describe + " fault at statement " +
+                            std::to_string(k) + "/" + std::to_string(W);
+        VF_CHECK(fired, where << ": the fault position was not reached (operation is not deterministic?)");
+        VF_CHECK(threw, where << ": the call did not report the failed statement");
+        sqlite3* conn = sh.last_db;
+        std::string after = observe(w->db, w->v2);
+        VF_CHECK(before == after, where << ": observable state changed although the call failed: " << first_diff_line(before, after));
+        VF_CHECK(!conn || sqlite3_get_autocommit(conn) != 0, where << ": a transaction was left open");
+        // the library stays usable: the same operation now succeeds
+        bool threw2 = false;
+        std::string d3 = do_mutation(*w, m, S(c[op_rec]), threw2);
+        VF_CHECK(!threw2, where << ": after the failed call the same operation no longer succeeds: " << d3);
+        VF_CHECK(!conn || sqlite3_get_autocommit(conn) != 0, where << ": a transaction was left open after the retry");
+        if (k >= 2)
+            ctx.label("k>=2");
+    }
+}
+}  // namespace api
